@@ -106,6 +106,15 @@ def run_case(case, rng):
                                                                 event_listener_class=Probe, seed=seed, **cap_kw))
     planner = LAOStar(heuristic=hfun, **lkw)
     Dflt.in_force(case, "LAOStar", planner, passed=lkw)        # the budgets left at their defaults, too
+    # facts for the classifier of exceptions: how large the optimal values are, and whether some non-absorbing state has two
+    # available actions whose optimal action values agree to 1e-12 relative (a tie that floating point cannot hold at that size)
+    Qs_ = np.where(arr.avail, sol.Q, -np.inf)
+    live_ = ~pinned
+    top2_ = np.sort(Qs_[live_], axis=1)[:, -2:] if live_.any() and Qs_.shape[1] >= 2 else np.zeros((0, 2))
+    tie_ = bool(len(top2_) and np.any(np.isfinite(top2_[:, 0]) & (np.abs(top2_[:, 1] - top2_[:, 0]) <= 1e-12 * np.maximum(1.0, np.abs(top2_[:, 1])))))
+    gaps_ = [abs(t_[1] - t_[0]) / max(1.0, abs(t_[1])) for t_ in top2_ if np.isfinite(t_[0])]
+    plan_facts = dict(gamma=gamma, heuristic=hk, value_magnitude=float(np.abs(sol.V).max()), exact_tie_between_optimal_actions=tie_,
+                      smallest_relative_gap_between_best_two_actions=float(min(gaps_)) if gaps_ else None)
     if rng.random() < 0.25:
         # the same planner object first plans on a sibling problem over the same labels with one more absorbing
         # state; nothing of that run may leak into the judged one
@@ -115,16 +124,9 @@ def run_case(case, rng):
         if extra:
             sib.flag = set(sib.flag) | {rng.choice(extra)}
             warm["on"] = True
-            case.call("LAOStar.plan_on(sibling)", planner.plan_on, Bd.build(sib, rep))
+            case.call("LAOStar.plan_on(sibling)", planner.plan_on, Bd.build(sib, rep), facts=plan_facts)
             warm["on"] = False
             case.count("planner_reused")
-    # facts for the classifier of exceptions: how large the optimal values are, and whether some non-absorbing state has two
-    # available actions whose optimal action values agree to 1e-12 relative (a tie that floating point cannot hold at that size)
-    Qs_ = np.where(arr.avail, sol.Q, -np.inf)
-    live_ = ~pinned
-    top2_ = np.sort(Qs_[live_], axis=1)[:, -2:] if live_.any() and Qs_.shape[1] >= 2 else np.zeros((0, 2))
-    tie_ = bool(len(top2_) and np.any(np.isfinite(top2_[:, 0]) & (np.abs(top2_[:, 1] - top2_[:, 0]) <= 1e-12 * np.maximum(1.0, np.abs(top2_[:, 1])))))
-    plan_facts = dict(gamma=gamma, heuristic=hk, value_magnitude=float(np.abs(sol.V).max()), exact_tie_between_optimal_actions=tie_)
     res = case.call("LAOStar.plan_on", planner.plan_on, mdp, facts=plan_facts)
     case.count("laostar_calls")
     if "heuristic_value_type" in case.params:
@@ -141,7 +143,7 @@ def run_case(case, rng):
             sib2.flag = set(sib2.flag) | {rng.choice(extra2)}
             it_backup = Probe.iters
             warm["on"] = True
-            case.call("LAOStar.plan_on(sibling, afterwards)", planner.plan_on, Bd.build(sib2, rep))
+            case.call("LAOStar.plan_on(sibling, afterwards)", planner.plan_on, Bd.build(sib2, rep), facts=plan_facts)
             warm["on"] = False
             Probe.iters = it_backup
             case.count("result_read_after_reuse")
